@@ -65,6 +65,54 @@ Proof.
   intros HI Hrun. pose proof (map_insert_spec c k kid v s HI) as H. unfold wp in H. rewrite Hrun in H. apply H.
 Qed.
 
+(* the whole resize: key-adding insertions one after the other; the old table that holds L
+   elements is released by exactly the max(1, ceil(L/R))-th of them (never later, whatever the
+   keys, the tombstones and the iteration order), and no other resize starts before that *)
+Fixpoint insert_seq (c : cfg) (items : list (N * N * N)) (s : st) : option st :=
+  match items with
+  | [] => Some s
+  | (k, kid, v) :: rest => match map_insert c k kid v s with Ok _ s' => insert_seq c rest s' | _ => None end
+  end.
+
+Lemma T_C03_finishes c : forall items s o s',
+  0 < cR c -> Inv (cR c) (cesz c) (s_rt s) -> lo (s_rt s) = Some o ->
+  NoDup (map (fun x => fst (fst x)) items) ->
+  (forall x, x ∈ items -> rt_abs (s_rt s) !! fst (fst x) = None) ->
+  insert_seq c items s = Some s' ->
+  N.max 1 (cdiv (ocnt o) (cR c)) <= N.of_nat (length items) ->
+  exists items1 items2 s1, items = items1 ++ items2 /\ insert_seq c items1 s = Some s1 /\
+    lo (s_rt s1) = None /\ N.of_nat (length items1) = N.max 1 (cdiv (ocnt o) (cR c)).
+Proof.
+  induction items as [|[[k kid] v] items IH]; intros s o s' HR HI Hlo Hnd Hfresh Hrun Hlen.
+  - cbn [length] in Hlen. lia.
+  - cbn [insert_seq] in Hrun. destruct (map_insert c k kid v s) as [res s1|p s1|f] eqn:E; [|discriminate|discriminate].
+    pose proof (map_insert_spec c k kid v s HI) as Hsp. unfold wp in Hsp. rewrite E in Hsp.
+    destruct Hsp as (HI1 & Hres & Hprog).
+    assert (Hk : rt_abs (s_rt s) !! k = None) by (apply (Hfresh (k, kid, v)); left).
+    assert (Hmain : hel (main (s_rt s)) !! k = None).
+    { rewrite (rt_abs_lookup _ _ _ _ HI) in Hk. destruct (hel (main (s_rt s)) !! k); [discriminate|reflexivity]. }
+    rewrite Hk in Hres. destruct Hres as [_ Habs1].
+    unfold progress in Hprog. rewrite Hlo, Hmain in Hprog.
+    cbn [map] in Hnd. apply NoDup_cons in Hnd as [Hnk Hnd].
+    destruct (lo (s_rt s1)) as [o1|] eqn:Hlo1.
+    + (* still moving: R elements left the old table *)
+      destruct Hprog as (Hcnt & Hgt & _).
+      assert (Hcd : cdiv (ocnt o) (cR c) = 1 + cdiv (ocnt o1) (cR c)).
+      { rewrite (cdiv_step (ocnt o) (cR c) HR Hgt). f_equal. f_equal. lia. }
+      destruct (IH s1 o1 s' HR HI1 Hlo1 Hnd) as (i1 & i2 & s2 & Hi & Hr & Hn & Hl).
+      * intros x Hx. rewrite Habs1. rewrite lookup_insert_ne; [apply Hfresh; right; exact Hx|].
+        intros Heq. apply Hnk. rewrite Heq. apply elem_of_list_fmap. exists x. auto.
+      * exact Hrun.
+      * cbn [length] in Hlen. rewrite Nat2N.inj_succ in Hlen. pose proof (cdiv_pos (ocnt o1) (cR c) HR ltac:(lia)). lia.
+      * exists ((k, kid, v) :: i1), i2, s2. split; [rewrite Hi; reflexivity|]. split; [cbn [insert_seq]; rewrite E; exact Hr|].
+        split; [exact Hn|]. cbn [length]. rewrite Nat2N.inj_succ. pose proof (cdiv_pos (ocnt o1) (cR c) HR ltac:(lia)). lia.
+    + (* released by this insertion *)
+      exists [(k, kid, v)], items, s1. split; [reflexivity|]. split; [cbn [insert_seq]; rewrite E; reflexivity|].
+      split; [exact Hlo1|]. cbn [length]. destruct (N.eq_dec (ocnt o) 0) as [Hz|Hz].
+      * rewrite Hz, (cdiv_0 _ HR). reflexivity.
+      * rewrite (cdiv_small (ocnt o) (cR c)) by lia. reflexivity.
+Qed.
+
 Lemma T_C03_two_tables c w i m o :
   0 < cR c -> reachable c w -> w_maps w !! i = Some m -> lo (m_rt m) = Some o ->
   oit o = ocnt o /\ ocnt o = N.of_nat (length (orem o)).
